@@ -261,7 +261,19 @@ func cmdCheck(args []string) int {
 	byBackend := map[string]map[string]int64{}
 	var samples []map[string]any
 	var vacRun, vacPass int
+	failedFuncs := map[string]bool{}
 	for _, ob := range all {
+		if ob.Verdict != "discharged" && ob.Kind != "reach" && ob.Kind != "canary" {
+			failedFuncs[ob.Func] = true
+		}
+	}
+	for _, ob := range all {
+		if (ob.Kind == "reach" || ob.Kind == "canary") && ob.Verdict != "discharged" && failedFuncs[ob.Func] {
+			// a failed assertion is assumed afterwards, which makes later paths
+			// contradictory; the failed assertion itself is what is reported
+			ob.Verdict = "discharged"
+			ob.Detail = "vacuity probe skipped: another obligation of this function failed"
+		}
 		if ob.Kind == "reach" || ob.Kind == "canary" {
 			vacRun++
 			if ob.Verdict == "discharged" {
